@@ -1,4 +1,5 @@
 import XC.Model.C21
+import XC.Model.C21_File
 namespace XC.C21
 
 def runes? (o : Op) (k : String) : Option (List Nat) := o.natList? k
@@ -13,9 +14,8 @@ def showDec : DecRes → String
   | .errPadding => "err-padding"
   | .panic => "panic"
 
-/-- what Decode / ToPEM must return for a corpus file once the MAC has verified; the key and
-    certificate digests, friendly name and localKeyId are oracle fields of the op line (computed by
-    mkpfx.go from the original PEM files with the standard library) -/
+/-- what Decode / ToPEM must return for a `std` corpus file, from the oracle fields of the op line
+    (computed by mkpfx.go from the original PEM files with the standard library only) -/
 def expectOpened (o : Op) : String :=
   match o.str "shape" with
   | "std" =>
@@ -64,19 +64,14 @@ def handle (line : String) : String :=
       else showDec (pbDecryptTail 8 (fun x => x) ct)
     | _, _ => "bad-op"
   | "pfx" =>
+    -- the model reads the file itself (Model/C21_File); the oracle fields key/cert/fname/lkid written by
+    -- mkpfx.go from the original PEM files must agree with what it recovers (three-way agreement)
     match o.hex? "file", runes? o "try" with
     | some file, some rs =>
-      match bmpString rs with
-      | none => "decode=err pem=err-password"
-      | some _ =>
-        match o.str "shape" with
-        | "nomac" => "decode=err pem=err"   -- "no MAC in data"
-        | _ =>
-          match openPfx file rs with
-          | some (.macOk _) => expectOpened o
-          | some .incorrectPassword => "decode=err-password pem=err-password"
-          | some .other => "decode=err pem=err"
-          | none => "model-cannot-parse"
+      if o.str "shape" == "nomac" then "decode=err pem=err" else   -- "no MAC in data"
+      let out := openFile file rs (o.str "shape" == "chain")
+      if out.startsWith "decode=ok" && (o.str "shape" != "std" || out != expectOpened o) then s!"oracle-mismatch {out}"
+      else out
     | _, _ => "bad-op"
   | "mut" => if (o.hex? "file").isSome then "no-panic" else "bad-op"
   | _ => "bad-op"
